@@ -6,6 +6,7 @@ import SwcVerif.Props.C15
 #print axioms C15.color_skipped
 #print axioms C15.leading_comment_skipped
 #print axioms C15.bad_point_rejected
+#print axioms C15.unbracketed_point_rejected
 #print axioms C15.node_error_propagates
 #print axioms C15.truncation_rejected_partial
 #print axioms C15.lex_skips_blanks
